@@ -2,7 +2,7 @@ use cosmwasm_std::{to_binary, Deps, QueryRequest, StdResult, Uint128, WasmQuery}
 
 use margined_perp::margined_engine::{ConfigResponse, QueryMsg as EngineQueryMsg};
 use margined_perp::margined_vamm::{
-    ConfigResponse as VammConfigResponse, QueryMsg as VammQueryMsg, StateResponse,
+    ConfigResponse as VammConfigResponse, OwnerResponse, QueryMsg as VammQueryMsg, StateResponse,
 };
 
 // this function queries the vamm with given address to find if it is open
@@ -39,4 +39,27 @@ pub fn query_engine_decimals(deps: &Deps, contract: String) -> StdResult<Uint128
         }))?
         .decimals;
     Ok(result)
+}
+
+// this function queries the vamm with given address to find whether `caller` may open / close it:
+// a vAMM takes SetOpen from its owner and from the insurance fund it names
+pub fn query_vamm_accepts_set_open(deps: &Deps, vamm_addr: String, caller: String) -> StdResult<bool> {
+    let insurance_fund = deps
+        .querier
+        .query::<VammConfigResponse>(&QueryRequest::Wasm(WasmQuery::Smart {
+            contract_addr: vamm_addr.clone(),
+            msg: to_binary(&VammQueryMsg::Config {})?,
+        }))?
+        .insurance_fund;
+    if insurance_fund.as_str() == caller {
+        return Ok(true);
+    }
+    let owner = deps
+        .querier
+        .query::<OwnerResponse>(&QueryRequest::Wasm(WasmQuery::Smart {
+            contract_addr: vamm_addr,
+            msg: to_binary(&VammQueryMsg::GetOwner {})?,
+        }))?
+        .owner;
+    Ok(owner.as_str() == caller)
 }
